@@ -19,13 +19,19 @@ def panic_kind(msg):
 
 
 def run(ctx):
-    ctx.cov["trusted_base"] = TRUSTED
+    ctx.cov["trusted_base"] = TRUSTED + TRUSTED_A2
     ctx.cov["partial"] = "parser and bytecode VM not modelled: crash-freedom of the real code is observed on samples, proved only for Spec"
     ctx.l1()
     r = run_numscript(ctx, 2500 if ctx.quick else 100000)
     if r is None:
         return
     inputs, impl, model = r
+    # ---- model A2: the VM model has explicit panic outcomes; it must agree with the real VM on whether a panic occurs
+    bc = run_bytecode(ctx, inputs)
+    if bc is not None:
+        compare_bytecode(ctx, inputs, bc[0], bc[1])
+        ctx.cov["bytecode"]["model_panics"] = sum(1 for o in bc[1].values() if "panic" in (o.get("run") or {}))
+        ctx.cov["bytecode"]["real_panics"] = sum(1 for o in bc[0].values() if "panic" in (o.get("run") or {}))
     compare(ctx, "numscript:spec-vs-vm(panic-as-outcome)", inputs, impl, model,
             proj_impl=lambda i, o: {"panic": True} if "panic" in o else {k: v for k, v in strip(o).items() if k not in ("lockR", "lockW")},
             proj_model=lambda i, o: {k: v for k, v in o.items() if k not in ("lockR", "lockW")})
